@@ -1293,6 +1293,17 @@ def plan_c16(tier, seed):
         return out
 
     us = units_from(Ls, hs)
+    # read-only range lists that name bits twice and are, in total, wider than the storage integer: accepted
+    # by the documented rules (type width == bits listed, all bits inside the base), but see known_findings.txt
+    wide = []
+    for (W, n) in ((8, 8), (32, 32), (16, 8)):
+        wide.append(Layout(W, [Field("x", T_uint(2 * n), [(0, n), (0, n)], None, "r")], tag=f"read-only list [0..={n - 1}, 0..={n - 1}] typed u{2 * n} on u{W}"))
+    for k, L in enumerate(wide):
+        if storage_bits(L.base) >= 2 * L.fields[0].ranges[0][1]:
+            continue
+        h = H.h_total(L, L.fields[0], "C16")
+        h.role = "self-overlapping-list-wider-than-storage"
+        us.append(Unit(f"w{k:05d}", L.decl(), [h], {"layout": L, "sig": L.sig(), "tag": L.tag, "valid": True, "role": "self-overlapping-list-wider-than-storage"}))
     # controls: an out-of-range index admitted, and a deliberately overflowing harness expression
     done = 0
     for u in us:
